@@ -89,6 +89,15 @@ def run(chk):
                 for m in (3, 16, 64):
                     cells.append(dict(kind=kind, m=m, groups=groups, shape=name + "+reuse", oracle=j, reuse=True,
                                       trials=trials_for(8 if m < 64 else 64, n, quick)))
+    # identity hashers (both private copies, 8-byte and 4-byte items): pairs of identifiers that differ by two swapped
+    # bytes must still be two items
+    for name, groups, j in shapes():
+        if name in ("nested", "overlap", "two-items", "disjoint"):
+            n = sum(g[0] for g in groups)
+            for kind, ids in (("smh_f64_no", "paired"), ("smh2_u64_no", "paired"), ("smh_f64_no32", "paired32"), ("smh2_u64_no32", "paired32")):
+                for m in (3, 16):
+                    cells.append(dict(kind=kind, m=m, groups=groups, shape=name + "+idhash", oracle=j, ids=ids,
+                                      trials=trials_for(8, n, quick)))
     res_ = freqfam.run_pairs(chk, cells, "pairs")
     freqfam.judge_pairs(chk, cells, res_, "pairs")
     chk.cov["pair_cells"] = len(cells)
